@@ -145,7 +145,8 @@ func SuicRenderLines(code *deps.Code, cursor string, n int) SuicRender {
 }
 
 func suicSetMem(h memview.VerifSuicView, cursor string) (int, int) {
-	if !h.HasCursor() {
+	// A view without rows has no cursor, or a cursor with no valid position.
+	if !h.HasCursor() || h.Rows() == 0 {
 		return h.Rows(), -1
 	}
 	if err := h.SetCursor(suicCursor(cursor, h.Rows())); err != nil {
